@@ -241,10 +241,13 @@ Definition post_br (cn : cond) (v : bool) (a : astate) : astate :=
   | _, _ => a
   end.
 
+(* the lock order: registry lock, then a study's lock, then the evolution lock; a lock is only taken inside locks of higher rank *)
+Definition lrank (l : lockref) : nat := match l with LReg => 3 | LStudy => 2 | LAlgo => 1 end.
+
 Definition req (init : bool) (x : act) (a : astate) : bool :=
   a_ok a && footprint_ok x &&
   match x with
-  | Acquire l => negb (holds l (a_locks a))
+  | Acquire l => negb (holds l (a_locks a)) && forallb (fun l' => Nat.ltb (lrank l) (lrank l')) (a_locks a)
   | Release l => match a_locks a with
                  | l' :: _ => lockref_eqb l l' && match l with LStudy => negb (d_lat a) | LReg => negb (d_reg a) && negb (d_rnp a) && negb (d_rnf a) | LAlgo => true end
                  | [] => false
